@@ -298,17 +298,27 @@ func (s *sess) stepGuard(b *behaviour, si int, body func() bool) bool {
 	return cont
 }
 
+// finalClose closes the appendable at the end of a behaviour; a panic or hang there (e.g. the flush of a corrupted
+// buffer window) is a violation, not a crash of the harness
+func (s *sess) finalClose(b *behaviour) {
+	if s.app == nil {
+		return
+	}
+	app := s.app
+	p, h, msg := vh.Guard(120*time.Second, func() { app.Close() })
+	if p || h {
+		s.res.Violate(s.kind+".Close:panic-or-hang", fmt.Sprintf("cfg %s: Close after %s: %s", s.c.Name, show(b.Ops), msg),
+			s.ctx(b, len(b.Ops)-1, nil))
+	}
+}
+
 // ---- byte mode (no compression): the appendable must be the byte array ----
 
 func (s *sess) replayBytes(b *behaviour) {
 	var err error
 	s.app, err = s.open(s.path, false)
 	vh.Must(err, "open "+s.path)
-	defer func() {
-		if s.app != nil {
-			s.app.Close()
-		}
-	}()
+	defer s.finalClose(b)
 	s.res.Traces++
 	c := s.c
 	prev := make([]int, c.Pre)
@@ -630,11 +640,7 @@ func (s *sess) replayEntries(b *behaviour) {
 	var err error
 	s.app, err = s.open(s.path, false)
 	vh.Must(err, "open "+s.path)
-	defer func() {
-		if s.app != nil {
-			s.app.Close()
-		}
-	}()
+	defer s.finalClose(b)
 	s.res.Traces++
 	c := s.c
 	var live []entry
